@@ -561,6 +561,15 @@ def b_reversed(ex, args, kwargs, s):
 
 def b_sorted(ex, args, kwargs, s):
     """sorted(x): a permutation of x (order unspecified unless contracts assume more)."""
+    if isinstance(args[0], ZipView):
+        # sorted(zip(a, b, ...)): a fresh list of as many (untyped) tuples; their order and content are not modelled
+        zv = args[0]
+        r = alloc(s, "sortedzip", SEQ(ANY))
+        s.assume(smt.is_list(r.t))
+        s.heap = s.heap.with_comp("sl", z3.Store(s.heap.c["sl"], r.t, zv.len)).with_comp("sa", z3.Store(s.heap.c["sa"], r.t, z3.Const(smt.fresh_name("sz_arr"), smt.IV)))
+        ex.assumptions.add("sorted(zip(...)): length kept, order and content of the pairs not modelled")
+        yield s, r
+        return
     view = ex.iter_view(args[0], s)
     s.assume(*view.facts)
     r = alloc(s, "sorted", SEQ(view.elem_ty))
